@@ -87,6 +87,10 @@ def run():
     rep.obligations.extend(tabvc.run_family(tabvc.normalizer_complete_obligation, list(range(1, 231))))
     sections_parallel(rep, [("id", _id), ("getters", _getters), ("maps", _maps)])
     rep.unproved_conjuncts.append("C06 last clause (identical conventional cell for parameter-free structures) depends on which of several equally ranked transformations is first: not covered")
+    # spglib is asked about the analysed structure with the analyzer's tolerance; the simple getters are dataset look-ups (shared section)
+    from props import _sym as _symmod
+    from props._util import section as _section
+    _section(rep, "dataset", lambda: _symmod.dataset_section(rep))
     return rep
 
 
